@@ -370,6 +370,8 @@ class Gen:
         if special and r < 0.42:
             k = rng.choice(special)
             P.ops.add(k)
+            if k != "deviator" and rng.random() < 0.75:
+                dest = None   # (the forced programs cover v=m*v, m=m*n, ... ; keep most random products alias free)
             if k == "matvec":
                 K = rng.randint(2, 3)
                 a, ta = self.expr(P, ("mat", sh[1], K), depth - 2, dest)
